@@ -10,7 +10,7 @@
      crypto/keyformat/asn1.c      getAsnTagLenUnsafe 39-73, getAsnLength 83-94, getAsnLength32 96-181,
                                   getAsnSequence32 190-218, getAsnSequence 220-231, getAsnSet32 238-258,
                                   getAsnSet 260-271, getAsnEnumerated 276-331, getAsnInteger 337-397,
-                                  getAsnAlgorithmIdentifier 403-425, getAsnOID 719-802
+                                  getAsnAlgorithmIdentifier 403-425, asnCopyOid 516-552, getAsnOID 719-802
      crypto/keyformat/x509.c      parseGeneralNames 2921-3192, psX509GetDNAttributes 5285-5828
      crypto/keyformat/base64.c    psBase64decode 67-139 (table from Gen/B64Map.v)
      crypto/keyformat/pem_decode_mem.c  psPemCheckOk 80-158, psPemDecode (unencrypted path) 160-310,
@@ -183,6 +183,37 @@ Definition getAsnTagLenUnsafe (buf : bytes) (limit c : N) : res N :=
     do bs <- slice buf limit (c + 2) k;
     Ok ((k + 2 + be_val bs) mod two32)
   else Ok (len + 2).
+
+(* asnCopyOid (asn1.c 516-552): copies the content octets of an OBJECT IDENTIFIER into the caller's
+   psAsnOid_t, an array of MAX_OID_BYTES octets (tag, length octet, content).  [derlen] is a
+   psSizeL_t: it is an UNBOUNDED N here and the size test is made on that number, not on the octet
+   that ends up in oid[1].  Every store goes through [oid_put], which is a Fault outside the array.
+   Result: (return value, the prefix of oid[] that was written). *)
+Definition oid_put (written : bytes) (idx v : N) : res bytes :=
+  if idx <? n_MAX_OID_BYTES then
+    (if idx =? lenN written then Ok (written ++ [v]) else
+     if idx <? lenN written then Ok (firstn (N.to_nat idx) written ++ v :: skipn (S (N.to_nat idx)) written)
+     else Fault)                      (* the model only ever appends or overwrites *)
+  else Fault.
+
+Fixpoint oid_copy_loop (data : bytes) (i len : N) (written : bytes) : res (N * bytes) :=
+  match data with
+  | [] => Ok (len, written)
+  | ch :: r =>
+      do w <- oid_put written (2 + i) ch;
+      oid_copy_loop r (i + 1) (len + (if 128 <=? ch then 0 else 1)) w
+  end.
+
+Definition asnCopyOid (buf : bytes) (limit p derlen : N) : res (N * bytes) :=
+  if (derlen <? 1) || (n_MAX_OID_BYTES - 2 <? derlen) then
+    do w <- oid_put [] 0 0; do w <- oid_put w 1 0; Ok (0, w)
+  else
+    do w <- oid_put [] 0 n_ASN_OID;
+    do w <- oid_put w 1 (derlen mod 256);
+    do data <- slice buf limit p derlen;
+    do r <- oid_copy_loop data 0 1 w;
+    let '(len, w) := r in
+    if 128 <=? last data 0 then Ok (0, w) else Ok (len mod 256, w).
 
 (* ------------------------------------------------------------------------------------------ x509.c: GeneralNames *)
 Record gname : Type := mkGname {
